@@ -172,19 +172,25 @@ theorem saveTail_ok {o : Obj} {os : OStream} {h0 : Bytes} {segs1 : List Seg} {la
     simp only [Bool.not_eq_true] at hf'
     exact ⟨hf', rfl, rfl, hok⟩
 
+/-- the object after the `get_data()` on every section with which `save` begins -/
+def preRes (o : Obj) : Obj :=
+  { o with secs := (allResident o.cls o.trans o.secs { st := o.stream } []).1,
+           stream := (allResident o.cls o.trans o.secs { st := o.stream } []).2.st }
+
 theorem save_eq (o : Obj) (os : OStream) :
     save o os =
       (match o.hdr with
       | none => pure { obj := o, os := os, ok := false }
       | some h =>
         if os.fail then pure { obj := o, os := os, ok := false } else
-        let h0 := saveHdr0 o h
+        let o1 := preRes o
+        let h0 := saveHdr0 o1 h
         do
-          let segs1 ← o.segs.mapM (calcSegAlign o.secs)
+          let segs1 ← o1.segs.mapM (calcSegAlign o1.secs)
           let ordered ← orderedSegments segs1
-          match ← ordered.foldlM (saveStep o.cls o.enc h0) (some (saveLay0 o h0, [])) with
-          | none => pure { obj := { o with hdr := some h0, segs := segs1, curPos := savePos0 o h0 }, os := os, ok := false }
-          | some (lay, done) => pure (saveTail o os h0 segs1 lay done)) := by
+          match ← ordered.foldlM (saveStep o1.cls o1.enc h0) (some (saveLay0 o1 h0, [])) with
+          | none => pure { obj := { o1 with hdr := some h0, segs := segs1, curPos := savePos0 o1 h0 }, os := os, ok := false }
+          | some (lay, done) => pure (saveTail o1 os h0 segs1 lay done)) := by
   unfold save
   cases o.hdr with
   | none => rfl
@@ -203,12 +209,14 @@ theorem save_eq (o : Obj) (os : OStream) :
         rw [apply_ite (pure : SaveRes → M SaveRes)]
         rfl
 
-/-- a successful save went through every phase -/
+/-- a successful save went through every phase (`preRes o` is the object after the initial
+    `get_data()` pass) -/
 theorem save_ok_unfold {o : Obj} {os : OStream} {r : SaveRes} (h : save o os = .ok r) (hok : r.ok = true) :
     ∃ hd segs1 ordered lay done, o.hdr = some hd ∧ os.fail = false ∧
-      o.segs.mapM (calcSegAlign o.secs) = .ok segs1 ∧ orderedSegments segs1 = .ok ordered ∧
-      ordered.foldlM (saveStep o.cls o.enc (saveHdr0 o hd)) (some (saveLay0 o (saveHdr0 o hd), [])) = .ok (some (lay, done)) ∧
-      r = saveTail o os (saveHdr0 o hd) segs1 lay done := by
+      (preRes o).segs.mapM (calcSegAlign (preRes o).secs) = .ok segs1 ∧ orderedSegments segs1 = .ok ordered ∧
+      ordered.foldlM (saveStep o.cls o.enc (saveHdr0 (preRes o) hd))
+        (some (saveLay0 (preRes o) (saveHdr0 (preRes o) hd), [])) = .ok (some (lay, done)) ∧
+      r = saveTail (preRes o) os (saveHdr0 (preRes o) hd) segs1 lay done := by
   rw [save_eq] at h
   cases hh : o.hdr with
   | none => rw [hh] at h; cases h; cases hok
@@ -218,7 +226,7 @@ theorem save_ok_unfold {o : Obj} {os : OStream} {r : SaveRes} (h : save o os = .
     by_cases hf : os.fail = true
     · rw [if_pos hf] at h; cases h; cases hok
     · rw [if_neg hf] at h
-      cases h1 : o.segs.mapM (calcSegAlign o.secs) with
+      cases h1 : (preRes o).segs.mapM (calcSegAlign (preRes o).secs) with
       | error e => rw [h1] at h; cases h
       | ok segs1 =>
         rw [h1] at h
@@ -228,7 +236,8 @@ theorem save_ok_unfold {o : Obj} {os : OStream} {r : SaveRes} (h : save o os = .
         | ok ordered =>
           rw [h2] at h
           simp only at h
-          cases h3 : ordered.foldlM (saveStep o.cls o.enc (saveHdr0 o hd)) (some (saveLay0 o (saveHdr0 o hd), [])) with
+          cases h3 : ordered.foldlM (saveStep (preRes o).cls (preRes o).enc (saveHdr0 (preRes o) hd))
+              (some (saveLay0 (preRes o) (saveHdr0 (preRes o) hd), [])) with
           | error e => rw [h3] at h; cases h
           | ok res =>
             rw [h3] at h
@@ -784,15 +793,41 @@ theorem layoutLoose_frame (c : Cls) (segs : List Seg) (l : List SecBuf) (i : Nat
     · obtain ⟨l', e, f⟩ := ih (i + 1) pos (s :: acc)
       exact ⟨s :: l', by rw [e]; simp, FrameL.cons (Placed.refl s) f⟩
 
-/-- what the `get_data()` of `save_sections` may change of a section: only the data buffer and its
-    bookkeeping; nothing at all if the section is resident (or can no longer be loaded) -/
+/-- what a `get_data()` (`save` performs one on every section) may change of a section: only the
+    data buffer and its bookkeeping; nothing at all if the section is resident (or can no longer be
+    loaded); and a section that has a data buffer keeps it -/
 structure ResFrame (a b : SecBuf) : Prop where
   rest : b = { a with data := b.data, dataSize := b.dataSize, isLoaded := b.isLoaded, canLoad := b.canLoad }
   resident : (a.isLoaded = true ∨ a.canLoad = false) → b = a
+  dataSome : a.data.isSome = true → b.data = a.data ∧ b.dataSize = a.dataSize
+  /-- afterwards the section is resident or known to be unloadable -/
+  post : (a.isLoaded = true ∨ a.canLoad = false) ∨ a = b ∨ (b.isLoaded = true ∨ b.canLoad = false)
 
-theorem ResFrame.refl (a : SecBuf) : ResFrame a a := ⟨rfl, fun _ => rfl⟩
+theorem ResFrame.refl (a : SecBuf) : ResFrame a a := ⟨rfl, fun _ => rfl, fun _ => ⟨rfl, rfl⟩, Or.inr (Or.inl rfl)⟩
 
-theorem secLoadData_frame (c : Cls) (tr : List Trans) (ls : LoadSt) (b : SecBuf) :
+theorem ResFrame.trans {a b c : SecBuf} (h1 : ResFrame a b) (h2 : ResFrame b c) : ResFrame a c := by
+  refine ⟨?_, fun h => ?_, fun h => ?_, ?_⟩
+  · have e2 := h2.rest; have e1 := h1.rest
+    rw [e1] at e2; exact e2
+  · have e := h1.resident h
+    rw [e] at h2
+    exact h2.resident h
+  · obtain ⟨p, q⟩ := h1.dataSome h
+    obtain ⟨p', q'⟩ := h2.dataSome (by rw [p]; exact h)
+    exact ⟨p'.trans p, q'.trans q⟩
+  · by_cases hr : a.isLoaded = true ∨ a.canLoad = false
+    · exact Or.inl hr
+    · rcases h1.post with h | h | h
+      · exact absurd h hr
+      · subst h
+        rcases h2.post with h' | h' | h'
+        · exact Or.inl h'
+        · exact Or.inr (Or.inl h')
+        · exact Or.inr (Or.inr h')
+      · have := h2.resident h
+        rw [this]; exact Or.inr (Or.inr h)
+
+theorem secLoadData_frame1 (c : Cls) (tr : List Trans) (ls : LoadSt) (b : SecBuf) :
     (secLoadData c tr ls b).2.1 =
       { b with data := (secLoadData c tr ls b).2.1.data, dataSize := (secLoadData c tr ls b).2.1.dataSize,
                isLoaded := (secLoadData c tr ls b).2.1.isLoaded } := by
@@ -801,6 +836,33 @@ theorem secLoadData_frame (c : Cls) (tr : List Trans) (ls : LoadSt) (b : SecBuf)
   repeat' split
   all_goals rfl
 
+theorem secLoadData_frame2 (c : Cls) (tr : List Trans) (ls : LoadSt) (b : SecBuf) (hd : b.data.isSome = true) :
+    (secLoadData c tr ls b).2.1.data = b.data ∧ (secLoadData c tr ls b).2.1.dataSize = b.dataSize := by
+  have hn : b.data.isNone = false := by
+    cases hb : b.data with
+    | none => rw [hb] at hd; cases hd
+    | some x => rfl
+  unfold secLoadData
+  simp only [hn, Bool.false_and, Bool.false_eq_true, if_false]
+  repeat' split
+  all_goals exact ⟨rfl, rfl⟩
+
+theorem secLoadData_frame3 (c : Cls) (tr : List Trans) (ls : LoadSt) (b : SecBuf) :
+    (secLoadData c tr ls b).2.2 = true → (secLoadData c tr ls b).2.1.isLoaded = true := by
+  unfold secLoadData
+  simp only
+  repeat' split
+  all_goals (intro h; first | rfl | cases h | exact h)
+
+theorem secLoadData_frame (c : Cls) (tr : List Trans) (ls : LoadSt) (b : SecBuf) :
+    (secLoadData c tr ls b).2.1 =
+      { b with data := (secLoadData c tr ls b).2.1.data, dataSize := (secLoadData c tr ls b).2.1.dataSize,
+               isLoaded := (secLoadData c tr ls b).2.1.isLoaded } ∧
+    (b.data.isSome = true → (secLoadData c tr ls b).2.1.data = b.data ∧
+      (secLoadData c tr ls b).2.1.dataSize = b.dataSize) ∧
+    ((secLoadData c tr ls b).2.2 = true → (secLoadData c tr ls b).2.1.isLoaded = true) :=
+  ⟨secLoadData_frame1 c tr ls b, secLoadData_frame2 c tr ls b, secLoadData_frame3 c tr ls b⟩
+
 theorem secGetData_frame (c : Cls) (tr : List Trans) (ls : LoadSt) (b : SecBuf) :
     ResFrame b (secGetData c tr ls b).2 ∧
       ((b.isLoaded = true ∨ b.canLoad = false) → (secGetData c tr ls b).1 = ls) := by
@@ -808,18 +870,24 @@ theorem secGetData_frame (c : Cls) (tr : List Trans) (ls : LoadSt) (b : SecBuf) 
   split
   · rename_i hc
     simp only [Bool.and_eq_true, Bool.not_eq_true'] at hc
-    refine ⟨⟨?_, fun h => ?_⟩, fun h => ?_⟩
-    · have := secLoadData_frame c tr ls b
-      simp only
+    obtain ⟨f1, f2, f3⟩ := secLoadData_frame c tr ls b
+    have hno : ¬ (b.isLoaded = true ∨ b.canLoad = false) := by
+      intro h; rcases h with h | h
+      · rw [hc.1] at h; cases h
+      · rw [hc.2] at h; cases h
+    refine ⟨⟨?_, fun h => absurd h hno, fun h => ?_, Or.inr (Or.inr ?_)⟩, fun h => absurd h hno⟩
+    · simp only
       split
-      · rw [this]
-      · rw [this]
-    · rcases h with h | h
-      · rw [hc.1] at h; cases h
-      · rw [hc.2] at h; cases h
-    · rcases h with h | h
-      · rw [hc.1] at h; cases h
-      · rw [hc.2] at h; cases h
+      · rw [f1]
+      · rw [f1]
+    · simp only
+      split
+      · exact f2 h
+      · exact f2 h
+    · simp only
+      split
+      · rename_i hok; exact Or.inl (f3 hok)
+      · exact Or.inr rfl
   · exact ⟨ResFrame.refl b, fun _ => rfl⟩
 
 theorem residentForSave_frame (c : Cls) (tr : List Trans) (l : List SecBuf) (ls : LoadSt) (acc : List SecBuf) :
@@ -833,6 +901,22 @@ theorem residentForSave_frame (c : Cls) (tr : List Trans) (l : List SecBuf) (ls 
       exact ⟨_ :: l', by rw [e]; simp, FrameL.cons (secGetData_frame c tr ls b).1 f⟩
     · obtain ⟨l', e, f⟩ := ih ls (b :: acc)
       exact ⟨b :: l', by rw [e]; simp, FrameL.cons (ResFrame.refl b) f⟩
+
+theorem allResident_frame (c : Cls) (tr : List Trans) (l : List SecBuf) (ls : LoadSt) (acc : List SecBuf) :
+    ∃ l', (allResident c tr l ls acc).1 = acc.reverse ++ l' ∧ FrameL ResFrame l l' := by
+  induction l generalizing ls acc with
+  | nil => exact ⟨[], by simp [allResident], FrameL.refl ResFrame.refl _⟩
+  | cons b rest ih =>
+    unfold allResident
+    obtain ⟨l', e, f⟩ := ih (secGetData c tr ls b).1 ((secGetData c tr ls b).2 :: acc)
+    exact ⟨_ :: l', by rw [e]; simp, FrameL.cons (secGetData_frame c tr ls b).1 f⟩
+
+theorem preRes_frame (o : Obj) : FrameL ResFrame o.secs (preRes o).secs := by
+  obtain ⟨l', e, f⟩ := allResident_frame o.cls o.trans o.secs { st := o.stream } []
+  simp only [List.reverse_nil, List.nil_append] at e
+  unfold preRes
+  simp only
+  rw [e]; exact f
 
 /-! ### all passes together -/
 
@@ -848,7 +932,7 @@ structure SegSaved (c : Cls) (g g' : Seg) : Prop where
     class, byte order, translation untouched -/
 theorem save_frames {o : Obj} {os : OStream} {r : SaveRes} (h : save o os = .ok r) (hok : r.ok = true)
     (hidx : SegIdxOk o.segs) :
-    (∃ l1, FrameL (Placed o.cls) o.secs l1 ∧ FrameL ResFrame l1 r.obj.secs) ∧
+    (∃ l0 l1, FrameL ResFrame o.secs l0 ∧ FrameL (Placed o.cls) l0 l1 ∧ FrameL ResFrame l1 r.obj.secs) ∧
     FrameL (SegSaved o.cls) o.segs r.obj.segs ∧
     r.obj.cls = o.cls ∧ r.obj.enc = o.enc ∧ r.obj.trans = o.trans := by
   obtain ⟨hd, segs1, ordered, lay, done, hh, hf, h1, h2, h3, rfl⟩ := save_ok_unfold h hok
@@ -860,7 +944,8 @@ theorem save_frames {o : Obj} {os : OStream} {r : SaveRes} (h : save o os = .ok 
   have hidx1 : SegIdxOk segs1 := by
     intro k g hg
     have hk : k < o.segs.length := by
-      rw [← fa.1]
+      have e0 : (preRes o).segs.length = o.segs.length := rfl
+      rw [← e0, ← fa.1]
       rcases Nat.lt_or_ge k segs1.length with hlt | hge
       · exact hlt
       · rw [List.getElem?_eq_none hge] at hg; cases hg
@@ -878,12 +963,16 @@ theorem save_frames {o : Obj} {os : OStream} {r : SaveRes} (h : save o os = .ok 
   refine ⟨?_, ?_, by first | rfl | trivial, by first | rfl | trivial, by first | rfl | trivial⟩
   · -- sections: segment loop, loose sections, residency
     obtain ⟨l1, e1, f1⟩ := layoutLoose_frame o.cls (putBack segs1 done) lay.secs 0 lay.pos []
-    obtain ⟨l2, e2, f2⟩ := residentForSave_frame o.cls o.trans l1 { st := o.stream } []
+    obtain ⟨l2, e2, f2⟩ := residentForSave_frame o.cls o.trans l1 { st := (preRes o).stream } []
     simp only [List.reverse_nil, List.nil_append] at e1 e2
-    have e : tailSecs o segs1 lay done = l2 := by
-      unfold tailSecs tailLoose; rw [e1, e2]
+    have e : tailSecs (preRes o) segs1 lay done = l2 := by
+      unfold tailSecs tailLoose
+      show (residentForSave o.cls o.trans (layoutLoose o.cls (putBack segs1 done) lay.secs 0 lay.pos []).1
+        { st := (preRes o).stream } []).1 = l2
+      rw [e1, e2]
     rw [e]
-    exact ⟨l1, FrameL.trans (R := Placed o.cls) (fun _ _ _ => Placed.trans) fsec f1, f2⟩
+    exact ⟨(preRes o).secs, l1, preRes_frame o,
+      FrameL.trans (R := Placed o.cls) (fun _ _ _ => Placed.trans) fsec f1, f2⟩
   · -- segments: alignment pass, then put back
     refine ⟨pb.1.trans fa.1, fun i a b ha hb => ?_⟩
     have hi : i < segs1.length := by
@@ -898,6 +987,12 @@ theorem save_frames {o : Obj} {os : OStream} {r : SaveRes} (h : save o os = .ok 
     · left; rw [e]; exact c1.2
     · exact Or.inr e
 
+theorem saveHdr0_preRes (o : Obj) (hd : Bytes) : saveHdr0 (preRes o) hd = saveHdr0 o hd := by
+  have e : (preRes o).secs.length = o.secs.length := (preRes_frame o).1
+  unfold saveHdr0
+  rw [e]
+  rfl
+
 /-- the header a successful `save` leaves: the old one after the four preliminary setters and the
     final `set_sections_offset` -/
 theorem save_hdr_eq {o : Obj} {os : OStream} {r : SaveRes} (h : save o os = .ok r) (hok : r.ok = true) :
@@ -905,7 +1000,9 @@ theorem save_hdr_eq {o : Obj} {os : OStream} {r : SaveRes} (h : save o os = .ok 
   obtain ⟨hd, segs1, ordered, lay, done, hh, _, _, _, _, rfl⟩ := save_ok_unfold h hok
   obtain ⟨_, eobj, _, _⟩ := saveTail_ok hok
   rw [eobj]
-  exact ⟨hd, _, hh, rfl⟩
+  refine ⟨hd, (tailShoff (preRes o) segs1 lay done).toNat, hh, ?_⟩
+  simp only [tailHdr, saveHdr0_preRes]
+  rfl
 
 /-- index-wise composition of two list relations -/
 theorem FrameL.comp {α} {R S T : α → α → Prop} (hc : ∀ a m b, R a m → S m b → T a b) {l1 l2 l3 : List α}
